@@ -3,7 +3,7 @@ import copy
 import gc
 
 import proto
-from common import Failure, Outcome, Broken
+from common import capped, Failure, Outcome, Broken
 from gen import pick, mutate_value
 import stores
 import polcase
@@ -107,7 +107,7 @@ class NotifySpy(Observer):
 
 
 def store_dump(st):
-    return sorted(polcase.policy_key(p) for p in st.retrieve_all(50))
+    return sorted(polcase.policy_key(p) for p in capped(st.retrieve_all(50)))
 
 
 def run(ctx):
@@ -325,9 +325,9 @@ def run(ctx):
                     if rd == 'get':
                         st.get(pick(rng, objs).uid)
                     elif rd == 'get_all':
-                        list(st.get_all(2, 0))
+                        capped(st.get_all(2, 0))
                     elif rd == 'retrieve_all':
-                        list(st.retrieve_all(2))
+                        capped(st.retrieve_all(2))
                     else:
                         list(st.find_for_inquiry(proto.build_inquiry(q0), checker))
                         counting.finds -= 1
